@@ -19,7 +19,7 @@ RULE = ('operator in {map, starmap, filter, scan, scan(reduce=True)} whose user 
         'absent (ignore, router) / replaced in place by the mapped value (error.map); the dead-letter observable receives the '
         'exceptions in source order and completes once with the stream; without handler the subscriber gets the outputs before '
         'the first failure and then on_error with that exception. Non-trivial = at least one failing and one passing item.')
-DEEP_PROBES = ('scan(reduce=True) as the failing operator; every input of up to 3 items subscribed a second time on the same observable; four exception classes; two error routers in one pipeline, run twice on the same pipeline object; the failing operator in front of group_by / roll / split / time_split')
+DEEP_PROBES = ('an unhandled error travelling through each of 25 further operators before it reaches the demultiplexer; scan(reduce=True) as the failing operator; every input of up to 3 items subscribed a second time on the same observable; four exception classes; two error routers in one pipeline, run twice on the same pipeline object; the failing operator in front of group_by / roll / split / time_split')
 ASSUMPTIONS = ['handlers are placed directly behind the failing operator (as stated)', 'total input length up to 5 (6 in thorough)']
 LEVEL_TEXT = ('Bounded-exhaustive model checking over the fault dimension: every subset of failing positions of every interleaved '
               'keyed input, for each operator/handler pair, against a direct model of "as if the item were absent". A routing '
@@ -97,6 +97,22 @@ OPS = {
 }
 DOWN = {'scan': [['scan', 'add', '0']], 'count': [['count']], 'last': [['last']], 'to_list': [['to_list']], 'none': []}
 HANDLERS = ['none', 'ignore', 'map', 'router']
+# "an unhandled mux error surfaces as on_error where the stream is demultiplexed": whatever operator it has to travel through
+SURFACE = {
+    'first': [['first']], 'take1': [['take', 1]], 'take2': [['take', 2]], 'distinct': [['distinct']], 'duc': [['duc']],
+    'batch2': [['batch', 2]], 'lag1': [['lag', 1]], 'lag2': [['lag', 2]], 'pad_start': [['pad_start', 1, 0]], 'pad_end': [['pad_end', 1, 0]],
+    'start_with': [['start_with', [5]]], 'sum': [['sum']], 'mean_r': [['mean', True]], 'min': [['min']], 'max_r': [['max', True]],
+    'variance': [['variance'], ['count']], 'fstddev': [['fstddev'], ['count']], 'to_array': [['to_array', 'q']], 'identity': [['identity']],
+    'clip': [['clip', 0, 5000]], 'fill_none': [['fill_none', 5]], 'flat': [['map', 'dup'], ['flat_map']], 'progress': [['progress', 2]],
+    'assert': [['assert', 'true']], 'two': [['scan', 'add', '0'], ['last']],
+}
+DOWN.update(SURFACE)
+# the streaming statistics emit one value per item: behind them only the count is compared (C12 owns the values)
+MODEL_AS = {'variance': [['count']], 'fstddev': [['count']]}
+
+
+def down_model(name):
+    return opspecs.model(MODEL_AS.get(name, DOWN[name]))
 
 
 def bounds(tier):
@@ -121,6 +137,9 @@ def units(tier):
         for h in HANDLERS:
             for d in (DOWN if tier != 'quick' else ['scan', 'count', 'last', 'to_list']):
                 out.append({'fam': 'api', 'op': o, 'handler': h, 'down': d, 'L': L})
+    for o in ('map', 'filter') if tier == 'quick' else OPS:
+        for d in SURFACE:
+            out.append({'fam': 'api', 'op': o, 'handler': 'none', 'down': d, 'L': 3 if tier == 'quick' else 4})
     out.append({'fam': 'routers', 'L': 4 if tier == 'quick' else 5})
     for o in OPS:
         for h in HANDLERS:
@@ -436,7 +455,7 @@ def run_case(case, acc):
     for i, x in enumerate(items):
         g = order[i]
         if g not in downs:
-            downs[g] = opspecs.model(DOWN[case['down']])
+            downs[g] = down_model(case['down'])
             models[g] = OpModel(case['op'])
             gorder.append(g)
         if i in fail:
@@ -512,7 +531,7 @@ def run_raw(case, acc):
     class Life(object):
         def __init__(self):
             self.m = OpModel(case['op'])
-            self.d = opspecs.model(DOWN[case['down']])
+            self.d = down_model(case['down'])
 
         def item(self, x):
             if _fails(x):
